@@ -19,6 +19,7 @@ RULE = (
     "recorder, linear window map); every model input and the returned rollout are compared with the sliding-window "
     "reference. Non-trivial: n>=2 and past>=2 or constants present; distinct by configuration."
 )
+RULE += " Also: long rollouts (n up to 24, past up to 9), state carried in aux_data, NumPy-backed input, int32 history with non-integer answers (ids compared exactly), jit rollout."
 ASSUMPTIONS = ["sliding-window reference written from the statement (per channel: drop oldest, append prediction; constants in place; input key order kept)"]
 ANCHORS = ["ginjax.ml.training:autoregressive_step", "ginjax.ml.training:autoregressive_map", "ginjax.geometric.multi_image:MultiImage.concat_inverse", "ginjax.geometric.multi_image:MultiImage.expand"]
 MIN_NONTRIVIAL = {"quick": 60, "thorough": 3000}
